@@ -7,8 +7,11 @@ whenever a blocking call (RE(...), resume, abort, stop, halt) returns with the e
   * every device's last set() call is followed by a stop() call.
   * every subscription a `monitor` message installed on a device (subscribe) has been removed (clear_sub):
     an oracle-only case family (monitors are not in the engine model; those cases are not sent to Coq).
-Flyers and per-call subscriptions are not exercised (the driver has no kickoff support): not covered
-(see manifest_parts/C06.json).
+Flyers, monitor subscriptions with raising devices and per-call / in-plan / permanent subscriptions are exercised by the
+cleanup-ledger family (harness/drivers/cleanup_{cases,driver,terms}.py, model Engine/CleanupLedger.v): the real ledger,
+the outcome of every message and the bookkeeping read after every call must equal the model's; the oracle reads the
+three clauses off the real ledger (kicked-off flyers collected or attempted - finding class C06-a -, monitor
+subscriptions removed, temporary tokens gone when the next call starts, permanent ones kept).
 """
 from harness.props.engine_common import *  # noqa: F401,F403  (impl_batch/nontrivial/describe/... shared by the engine family)
 from harness.props import engine_common as ec
@@ -17,13 +20,31 @@ from harness.drivers import engine_cases_c06, engine_encode, cleanup_cases, clea
 ID = "C06"
 PROP_FILE = "Props/C06.v"
 THEOREMS = ["C06_clean_when_idle_partial", "C06_clean_when_done", "C06_returns_idle_clean", "C06_idle_transition_clean",
-            "C06_ledger_tracked", "C06_full_refuted"]
+            "C06_ledger_tracked", "C06_full_refuted",
+            # Engine/CleanupLedger.v: flyers, monitor subscriptions, temporary subscriptions
+            "C06_flyers_collected_or_lost", "C06_flyers_collected", "C06_lost_only_by_close", "C06_a_refuted",
+            "C06_monitors_removed", "C06_cleanup_tracked", "C06_temp_tokens_removed", "C06_permanent_kept",
+            "C06_cleanup_ledger_grows", "C06_other_runs_untouched"]
+MODELLED = ec.MODELLED + (
+    " Flyers, monitor subscriptions and temporary subscriptions are modelled separately by hand in Engine/CleanupLedger.v "
+    "(RunBundler._uncollected / _monitor_params / _monitor_suspensions / describe caches, kickoff, collect, backstop_collect, "
+    "monitor, unmonitor, clear_monitors, suspend/restore_monitors, the clearing loop of close_run; RunEngine._kickoff/_complete/"
+    "_collect/_monitor/_unmonitor/_open_run/_close_run key handling, _subscribe/_unsubscribe, _temp_callback_ids, "
+    "_clear_call_cache and the per-call subscriptions of __call__, Dispatcher tokens, the pause block / wake-up, the finally "
+    "block of _run); devices are a fault oracle over call positions. Not modelled there: callbacks raising while a document is "
+    "emitted, Configurable/Stoppable/Pausable flyers and signals, suspenders, rewinding, multi-object collect, declared streams.")
 COQ_IMPORTS = ec.COQ_IMPORTS + ("\nFrom BV Require Import Proofs.RE_Clean.\nFrom BV Require Engine.CleanupLedger.\n"
                                "Module CL := BV.Engine.CleanupLedger.")
 RULE = ec.RULE + ("; plus C06 cases (harness/drivers/engine_cases_c06.py): 10 stage/set plans (double staging, re-staging, "
                   "unstage in finally, clear_checkpoint, raising plan, handled device error) x requests at `_run` step indices x "
                   "{abort, stop, halt, pause+resume/stop/abort/halt, suspend}, device faults in stage/unstage/set/stop, "
-                  "several calls on one engine, seeded random stage/set plans")
+                  "several calls on one engine, seeded random stage/set plans; plus cleanup-ledger sessions (harness/drivers/"
+                  "cleanup_cases.py, real RunEngine with context_managers=[], fake flyers / monitorable signals / callbacks logging every "
+                  "call and raising at given call positions): 14 plan bodies (kickoff/complete/collect/monitor/unmonitor/subscribe/"
+                  "unsubscribe over several run keys) x 9 endings (completion, plan exception, failed pause, pause then resume/abort/stop/"
+                  "halt, with and without a cleanup block in the plan) x a raising device call at every reachable position; multi-call "
+                  "sessions with per-call subs RE(plan, subs), permanent RE.subscribe, unsubscribes between calls and while paused; "
+                  "seeded random sessions of 1-3 calls with 0-3 faults")
 
 
 def cases(rng, tier):
